@@ -135,9 +135,19 @@ var tagLines = []string{" +gengo:deepcopy", " +gengo:enum=false", " @deprecated 
 var oddLines = []string{"", "go:generate echo x", " go:generate spaced", "nolint:foo", "\tTabbed +x", " trailing spaces   ", " ünïcödé ✓ +not=tag", "  two spaces",
 	" a  b", " ends with tab\t", "no space", "  nbsp first", " x　"}
 
+// colonLines: comment lines whose first word looks like a directive ([a-z0-9]+:[a-z0-9]) but which are ordinary text —
+// go/ast drops such a line only when it directly follows the slashes ("//nolint:x"); after a blank it is
+// documentation ("// 10:30 is the default start") and belongs to Doc/Comment like any other line; only the go: prefix is
+// filtered by gengo.  With near misses on both sides of the pattern.
+var colonLines = []string{" 10:30 is the default start time", " 1:1 means equal parts", " tz:utc unless set", " urn:job:owner of the job", " key:value",
+	" nolint:unused spaced", " lint:ignore U1000 spaced", " 0:00 every day", " a:b", " x:1", " 3:4 ratio", " todo:later",
+	" Note:x upper", " x: y", " :x", " x:", " a-b:c", " é:x", " http://example.com/a", " golang:x", " 1:A", "\tcol:1 tabbed", "  k:v two spaces"}
+
 func (g *lgen) line(name string) string {
 	r := g.r
-	switch k := r.Intn(20); {
+	switch k := r.Intn(23); {
+	case k >= 20:
+		return core.Pick(r, colonLines)
 	case k < 9:
 		if r.Chance(50) {
 			return " " + name + core.Pick(r, docWords)
@@ -430,6 +440,13 @@ func fixedLayouts() []json.RawMessage {
 			{Kind: "type", Blank: 1, Doc: lc("go:generate echo x"), Specs: []Spec{{Names: []string{"G"}, TK: "basic", Type: "int"}}},
 			{Kind: "type", Blank: 1, Doc: lc(""), Specs: []Spec{{Names: []string{"E"}, TK: "basic", Type: "int", Trail: lc("")}}},
 			{Kind: "type", Blank: 1, Doc: lc(" go:generate spaced", " D doc"), Specs: []Spec{{Names: []string{"D"}, TK: "basic", Type: "int"}}},
+		}}),
+		// lines whose first word looks like a directive but which follow "// ": ordinary documentation (only go: is filtered)
+		layoutInput(File{Decls: []Decl{
+			{Kind: "type", Blank: 1, Doc: lc(" Schedule describes when the job runs.", " 10:30 is the default start time,", " tz:utc unless set.", " +gengo:x=1"), Specs: []Spec{{Names: []string{"Schedule"}, TK: "struct", Fields: []Field{
+				{Names: []string{"Cron"}, Type: "string", Doc: lc(" Cron expression,", " 0:00 every day."), Trail: lc(" key:value")},
+				{Names: []string{"Owner"}, Type: "string", Doc: lc(" urn:job:owner of the job")}}}}},
+			{Kind: "const", Blank: 1, Doc: bc(" 1:1 means equal parts", " nolint:unused spaced"), Specs: []Spec{{Names: []string{"Ratio"}, Value: "1", Trail: bc(" a:b ")}}},
 		}}),
 		// two files with the same line numbers
 		layoutInput(
